@@ -122,11 +122,69 @@ def opq_code(v):
     return 0 if v is None else abs(v) if isinstance(v, int) else len(v)
 
 
+class UserDefinedError(Exception):
+    """an exception class of the user's own"""
+
+
+def _raise_index():
+    return [][0]
+
+
+def _raise_key():
+    return {}["missing"]
+
+
+def _raise_zero():
+    return 10 % 0
+
+
+def _raise_assert():
+    assert False, "opaque predicate"
+
+
+def _raise_stop():
+    return next(iter(()))
+
+
+def _raise_user():
+    raise UserDefinedError("opaque predicate")
+
+
+def _raise_value():
+    raise ValueError("opaque predicate")
+
+
+def _raise_type():
+    return len(5)
+
+
+def _raise_attr():
+    return None.isupper()
+
+
+def _raise_lookup():
+    raise LookupError("opaque predicate")
+
+
+def _raise_os():
+    raise OSError("opaque predicate")
+
+
+# every kind of exception a predicate may raise: the family member k raises the kind number k // 3
+RAISERS = [_raise_value, _raise_index, _raise_key, _raise_zero, _raise_assert, _raise_user, _raise_stop, _raise_type,
+           _raise_attr, _raise_lookup, _raise_os]
+N_OPQ = 3 * len(RAISERS)
+
+
 def opq(k):
+    """opaque callable number k: (k + code(v)) % 3 = 0 -> False, 1 -> True, 2 -> raises; WHAT it raises depends on k // 3
+    (ValueError, IndexError, KeyError, ZeroDivisionError, AssertionError, a user-defined class, StopIteration, TypeError,
+    AttributeError, LookupError, OSError), through the operation that naturally raises it where there is one"""
     def f(v):
         h = (k + opq_code(v)) % 3
         if h == 2:
-            raise ValueError("opaque predicate %d raises" % k)
+            RAISERS[(k // 3) % len(RAISERS)]()
+            raise RuntimeError("unreachable")
         return h == 1
     return f
 
@@ -844,7 +902,7 @@ def gen_bexp(rng, depth, fam=None):
         if k < 0.85:
             return ["pi", rng.choice(OPS if rng.random() < 0.3 else ["eq", "contains", "startswith", "endswith"]),
                     rng.choice(STRS) if rng.random() < 0.85 else rng.choice(CASE_STRS)]
-        return ["o", rng.randrange(3), rng.random() < 0.3]
+        return ["o", rng.randrange(N_OPQ), rng.random() < 0.3]
     if r < 0.55:
         return ["not", gen_bexp(rng, depth - 1, fam)]
     return [rng.choice(["and", "or"]), gen_bexp(rng, depth - 1, fam), gen_bexp(rng, depth - 1, fam)]
@@ -861,7 +919,7 @@ def gen_nq(rng, names, attr=False):
         return ["lit", rng.choice(names) if rng.random() < 0.9 else rng.choice(INTS)]
     if r < 0.9:
         return ["b", gen_bexp(rng, rng.choice([0, 1, 1, 2, 3]), fam)]
-    return ["f", rng.randrange(3)]
+    return ["f", rng.randrange(N_OPQ)]
 
 
 def gen_eq(rng, names, depth):
@@ -920,7 +978,7 @@ def gen_forest(rng, max_nodes):
         if top:
             name, attrs = (None if rng.random() < 0.8 else rng.choice(names)), []
         else:
-            name = rng.choice(names) if rng.random() < 0.93 else rng.choice([None, 5, ""])
+            name = rng.choice(names) if rng.random() < 0.93 else rng.choice([None, 5, "", 0, "", 0])
             attrs = [gen_val(rng, fam) for _ in range(rng.choice([0, 0, 1, 1, 1, 2, 3]))]
         t = {"id": i, "name": name, "attrs": attrs, "children": []}
         kmax = 0 if depth >= 6 else rng.choice([0, 1, 2, 2, 3, 4]) if not top else rng.choice([1, 2, 3, 4])
@@ -1400,7 +1458,7 @@ def gen_leaf(rng, names):
     if k < 0.8:
         return ["p", rng.choice(OPS), gen_val(rng)]
     if k < 0.9:
-        return ["o", rng.randrange(3), rng.random() < 0.3]
+        return ["o", rng.randrange(N_OPQ), rng.random() < 0.3]
     return rng.choice([["tt"], ["ff"]])
 
 
@@ -1824,6 +1882,40 @@ def exec_reparent(case, sink):
     return out
 
 
+# --------------------------------------------------------------------------- chains far deeper than the random forests
+
+def gen_deep_case(rng, depth):
+    """nested sections `depth` levels deep, matches at every depth incl. the deepest, a few directives on the way"""
+    names = rng.sample(["a", "b", "ab"], 2)
+    nid = [0]
+
+    def mk(name, attrs):
+        t = {"id": nid[0], "name": name, "attrs": attrs, "children": []}
+        nid[0] += 1
+        return t
+    top = mk(None, [])
+    cur = top
+    mid = None
+    for d in range(depth):
+        sec = mk(rng.choice(names) if rng.random() < 0.8 else names[0], [d] if rng.random() < 0.3 else [])
+        if rng.random() < 0.25:
+            cur["children"].append(mk(rng.choice(names), ["x"]))
+        cur["children"].append(sec)
+        if rng.random() < 0.15:
+            cur["children"].append(mk(rng.choice(names), []))
+        cur = sec
+        if d == depth // 2:
+            mid = sec["id"]
+    cur["name"] = names[0]                      # the deepest node matches
+    deepest = cur["id"]
+    k = rng.random()
+    qs = [["qn", ["lit", names[0]]]] if k < 0.4 else [["qn", ["lit", names[0]]], ["qn", ["lit", rng.choice(names)]]] if k < 0.7 else \
+        [["qt", ["lit", names[0]], []], ["qn", ["any"]], ["qn", ["lit", names[1]]]] if k < 0.85 else [["qn", ["b", ["pi", "eq", names[0].upper()]]]]
+    start = "doc 0" if rng.random() < 0.6 else "node %d" % mid
+    return {"start": start, "docs": [top], "steps": [["S", True, rng.random() < 0.5, qs]], "via_find": rng.random() < 0.5,
+            "depth": depth, "deepest": deepest}
+
+
 # --------------------------------------------------------------------------- run
 
 def case_key(case):
@@ -1863,8 +1955,8 @@ def plain_ids(plain, ident):
 def run(chk):
     rng = chk.rng
     quick = chk.tier == "quick"
-    n_bool = 6000 if quick else 150000
-    n_sel = 6000 if quick else 80000
+    n_bool = 5000 if quick else 150000
+    n_sel = 5000 if quick else 80000
     n_ngx = 250 if quick else 3000
     max_nodes = 40 if quick else 90
     chk.rule = ("forests of 1-3 documents (3..%d nodes, 1-3 distinct names so that levels match and matched nodes nest; "
@@ -2066,8 +2158,22 @@ def run(chk):
             chk.sample({"provenance": {"style": flat_cases[0][1]["style"], "pipes": flat_cases[0][1]["pipes"],
                                        "order": flat_cases[0][1]["order"]}, "impl": flat_impl[0]})
 
+    # ---- stream 2e: chains of 70 / 100 / 200 nested sections, matches at any depth
+    cases, impls = [], []
+    for depth in ([70, 100, 200, 70, 100, 200] if quick else [70, 100, 200] * 30):
+        c = gen_deep_case(rng, depth)
+        tops, ident, _k = build_entries(c["docs"])
+        a, plain = run_impl(c, tops, ident)
+        cases.append(c)
+        impls.append((a, plain_ids(plain, ident)))
+        chk.case(hash(case_key(c)), a not in ("-", "err"))
+        chk.count("deep:depth-%d" % depth)
+        got = (plain_ids(plain, ident) if c["steps"][0][2] else a)
+        chk.count("deep:deepest node returned" if str(c["deepest"]) in (got or "").split(",") else "deep:deepest node not a match of this query")
+    run_sel_batch(chk, "deep chains (70/100/200 levels)", cases, impls)
+
     # ---- stream 2d: histories query -> re-parent -> query (.root follows the current parent chain)
-    n_rep = 400 if quick else 8000
+    n_rep = 300 if quick else 8000
     for lo in range(0, n_rep, 2000):
         flat, impl = [], []
         for _ in range(min(2000, n_rep - lo)):
